@@ -7,6 +7,7 @@ LEVEL = ("bounded symbolic execution of the repository's own functions on z3 pro
          "explored path: within the stated instantiation family and integer ranges the solver's verdict covers every value of "
          "the symbolic inputs; counterexamples are replayed on the unpatched code before being reported. %s")
 CHECKS = {
+ "C20": ("§3 C20", "symbolic: dictionary presence flags and values, variable boxes, 0/1 entries, matrix entries, list membership flags; instantiated: id lists, dtypes, default kind", "M1, M4, M10; for from_list ids are concrete strings and only membership/position is symbolic (thin solver share, stated)"),
  "C19": ("§3 C19", "symbolic: matrix entries, right-hand sides, all point coordinates (fully symbolic up to 2x2, concrete matrices beyond); instantiated: shapes, points.ndim, function", "M1 numpy object-dtype shim, M3; QF_NIA queries share product terms with the oracle"),
  "C11": ("§3 C11", "symbolic: right-hand sides, variable boxes, an in-box point (also used as witness for the reduced system); instantiated: coefficient patterns, box families; fix-point loop unrolled by execution", "M1, M2, M3 (numpy shim differentially validated on every run); forced values unique so no quantifier alternation"),
  "C12": ("§3 C12", "symbolic: right-hand sides, variable boxes (16-bit), a point; instantiated: coefficient patterns (<=3x3, entries -3..3), box families", "M1 numpy object-dtype shim, M2 exact rational model of float division, M3 no int64 overflow in range; each validated differentially against real int64 numpy on every run"),
